@@ -75,6 +75,11 @@ Laws ==
   /\ (Family = "extend" => Tight(c.l0, c.gs) = Tight(c.l0, RevSeq(c.gs))
                            /\ (Len(c.gs) > 0 => Tight(c.l0, c.gs).l = Join(Tight(c.l0, SubSeq(c.gs, 1, Len(c.gs) - 1)).l, c.gs[Len(c.gs)].l)))
   /\ (Family = "extgc" => Tight(c.l0, LeavesAll(c.gs)) = Tight(c.l0, LeavesAll(RevSeq(c.gs))))
+  \* the quantities BoundsObs!Fits judges (dimensions with a coordinate, their ordinates, the largest layout) are order-free too
+  /\ (Family \in {"extend", "extgc"} =>
+        LET a == LeavesAll(c.gs)  b == LeavesAll(RevSeq(c.gs)) IN
+        /\ CoordDims(a) = CoordDims(b) /\ HiDims(c.l0, a) = HiDims(c.l0, b) /\ \A d \in AllDims : DVals(a, d) = DVals(b, d)
+        /\ CoordDims(a) \subseteq HiDims(c.l0, a))
   /\ (Family = "overlap" /\ AgreesWith(c.l, c.b1.l) /\ AgreesWith(c.l, c.b2.l)
         => Overlap(Str(c.l), c.b1.min, c.b1.max, c.b2.min, c.b2.max) = Overlap(Str(c.l), c.b2.min, c.b2.max, c.b1.min, c.b1.max))
 Emit == PrintT(<<"CASE", ToJson(c)>>)
